@@ -243,11 +243,24 @@ func checkC20(c *Ctx) Meta {
 			c.Bad("C20-ALLOW", "lan-table-is-rfc1918", "", "the private-LAN table differs from RFC 1918: "+strings.Join(bad, ", ")+fmt.Sprintf(" keys-ok=%v", keysOK))
 		}
 	}
-	if gf := c.MustFn("C20-ALLOW", "api", "getIPAccessControlFunc"); gf != nil && len(gf.AnonFuncs) >= 1 {
+	if gf := c.MustFn("C20-ALLOW", "api", "getIPAccessControlFunc"); gf != nil {
 		var fn *ssa.Function
 		for _, a := range gf.AnonFuncs {
 			if a.Signature.Results().Len() == 1 && a.Signature.Params().Len() == 1 {
 				fn = a
+			}
+		}
+		if fn == nil {
+			// the decision function may be a method of an object the reference tree does not have, handed
+			// out as a method value
+			for _, ret := range returnsOf(gf) {
+				valueOrigins(gf, ret.Results[0], func(r ssa.Value) {
+					if mc, ok := r.(*ssa.MakeClosure); ok {
+						if h := boundMethodTarget(mc); h != nil && gNewFuncs[h] && h.Signature.Results().Len() == 1 && h.Signature.Params().Len() == 1 {
+							fn = h
+						}
+					}
+				})
 			}
 		}
 		if fn == nil {
@@ -362,7 +375,8 @@ func checkC20(c *Ctx) Meta {
 			wild := false
 			allInstrs(gf, func(in ssa.Instruction) {
 				if st, ok := in.(*ssa.Store); ok {
-					if a, ok := st.Addr.(*ssa.Alloc); ok && a.Comment == "allowAllIP" {
+					a, isAlloc := st.Addr.(*ssa.Alloc)
+					if (isAlloc && a.Comment == "allowAllIP") || (!isAlloc && freeVarName(st.Addr) == "allowAllIP") {
 						if s, ok := constString(st.Val); ok && s == "true" {
 							// behind addr == "*"
 							for _, t := range cmpTests(gf, func(bo *ssa.BinOp) bool {
@@ -752,6 +766,12 @@ func freeVarName(v ssa.Value) string {
 	}
 	if fv, ok := v.(*ssa.FreeVar); ok {
 		return fv.Name()
+	}
+	// captured variables gathered into a struct the reference tree does not have: the field of that name
+	if fa, ok := v.(*ssa.FieldAddr); ok {
+		if t, f, _, isF := fieldOfAddr(fa); isF && gNewTypes[t] {
+			return f
+		}
 	}
 	return ""
 }
